@@ -277,6 +277,20 @@ def gen_tables() -> str:
     w(f"def gcHeadBases : List Nat := {lst(g['head'])}")
     w(f"def gcOtherComparisons : List String := [{', '.join(lean_str(x) for x in g['other'])}]")
     w(f"def gcGuard : String := {lean_str(g['guard'])}")
+    # Clark notation: the function probed on a table of names (Model/Attrs.lean `deconstructClark` is compared with it)
+    from _delb.names import deconstruct_clark_notation
+
+    probes = ["a", "{urn:u}a", "{}a", "{u}{v}b", "{u}", "", "a}b", "{u}a}b", "x{u}a", "{http://www.tei-c.org/ns/1.0}text", "{ }n", "{x", "{"]
+    w("/-- `deconstruct_clark_notation(name)` observed on /repo: (name, namespace or none, local name); a name that makes")
+    w("    it raise is listed with local name \"<raises>\" -/")
+    rows = []
+    for name in probes:
+        try:
+            ns, local = deconstruct_clark_notation(name)
+            rows.append("(%s, %s, %s)" % (lean_str(name), "none" if ns is None else "some " + lean_str(ns), lean_str(local)))
+        except Exception:  # noqa: BLE001
+            rows.append("(%s, none, %s)" % (lean_str(name), lean_str("<raises>")))
+    w("def clarkProbes : List (String × Option String × String) := [" + ", ".join(rows) + "]")
     w("/-- generator functions that `yield` inside a `with _wrapper_cache:` block (the lock would stay raised while the")
     w("    generator is suspended, and collections would evict nothing meanwhile) -/")
     w("def gcLockHeldAcrossYield : List String := [" + ", ".join(lean_str(x) for x in g.get("lock_yields", [])) + "]")
